@@ -67,6 +67,7 @@ func c15Progs() []c15Prog {
 		{"Set||Delete||Get", [][]c15Op{{{"set", c15K, c15V1}}, {{"del", c15K, nil}}, {{"get", c15K, nil}}}},
 		{"Set||Get||Get", [][]c15Op{{{"set", c15K, c15V1}}, {{"get", c15K, nil}}, {{"get", c15K, nil}}}},
 		{"Set;Get||Delete", [][]c15Op{{{"set", c15K, c15V1}, {"get", c15K, nil}}, {{"del", c15K, nil}}}},
+		{"Set||Set||Set;Get", [][]c15Op{{{"set", c15K, c15V1}}, {{"set", c15K, c15V2}}, {{"set", c15K, c15V0}, {"get", c15K, nil}}}},
 		{"siblings Set||Set||Get", [][]c15Op{{{"set", sib1, c15V1}}, {{"set", sib2, c15V2}}, {{"get", sib1, nil}}}},
 	}
 }
